@@ -234,6 +234,41 @@ def run(rng, tier, model_ok):
                 failures.append({"input": hist, "why": "after a kill and an in-memory start, an ordinary start does not answer like a fresh in-memory database", "got": (ans if ans != ref else ans2)[:2]})
             elif not is_current(sb.meta()):
                 failures.append({"input": hist, "why": "a completed start did not leave current metadata"})
+    # faults between runs: a start killed at ANY crash point the source has (they are read from the source, so a point added by a
+    # change is tried as well), then the directory damaged from outside (index removed, metadata removed, metadata cut short), then
+    # a start killed while rebuilding, then a complete start -- anything a killed start leaves behind must not vouch for a later index
+    import re as _re
+    found = set()
+    for fn in os.listdir("/repo/src"):
+        if fn.endswith(".rs"):
+            found |= {int(x) for x in _re.findall(r"crash_point\((\d+)\)", open(os.path.join("/repo/src", fn)).read())}
+    allcps = sorted(found | set(cps))
+    damages = ["remove_index", "remove_meta", "cut_meta"]
+    dam_runs = 0
+    for st in ("absent", "current"):
+        for p_ in allcps:
+            for dmg in damages:
+                for q_ in ((5, 7) if tier == "quick" else (5, 6, 7, 8)):
+                    prepare(st)
+                    sb.start(crash=p_)
+                    ip_, mp_ = os.path.join(sb.data, "index"), os.path.join(sb.data, "meta.json")
+                    if dmg == "remove_index":
+                        shutil.rmtree(ip_, ignore_errors=True)
+                    elif dmg == "remove_meta":
+                        if os.path.exists(mp_):
+                            os.remove(mp_)
+                    elif os.path.exists(mp_):
+                        b_ = open(mp_, "rb").read()
+                        open(mp_, "wb").write(b_[: len(b_) // 2])
+                    sb.start(crash=q_)
+                    rc, ans = sb.start()
+                    runs += 3
+                    dam_runs += 1
+                    h_ = {"state": st, "history": ["kill at %d" % p_, dmg, "kill at %d" % q_, "start"]}
+                    if rc != 0 or ans != ref:
+                        failures.append({"input": h_, "why": "after the history the start does not answer like a fresh in-memory database (rc=%s)" % rc, "got": ans[:2]})
+                    elif not is_current(sb.meta()):
+                        failures.append({"input": h_, "why": "a completed start did not leave current metadata"})
     mismatches = []
     if model_ok:
         bad = vlib.coq_eval_cases(cases, "C15", shard_size=50)
@@ -245,10 +280,10 @@ def run(rng, tier, model_ok):
         "rule": "26 prior directory states (absent; current; other version; other hash; metadata missing / truncated / torn / without keys / "
                 "version only; index directory missing / unopenable (with current and with other hash); empty directory; an index holding a fact that "
                 "is not shipped under five kinds of metadata that do not declare it current; an index of another layout under the version of another patch / minor release; metadata that is well-formed JSON of the wrong shape) x every crash point "
-                "1..10 (and pairs of crash points), each followed by a complete start compared with an in-memory database; non-trivial = "
+                "1..10 (and pairs of crash points), each followed by a complete start compared with an in-memory database; histories kill at any crash point found in the source -> damage from outside -> kill while rebuilding -> start; non-trivial = "
                 "distinct (state, kill history) cases",
         "samples": samples, "mismatches": mismatches, "failures": failures,
-        "extra": {"states": len(states), "crash_points": len(cps), "histories": len(histories), "process_starts": runs, "histories_with_an_in_memory_start": mem_runs, "exhaustive": True,
+        "extra": {"states": len(states), "crash_points": len(cps), "histories": len(histories), "process_starts": runs, "histories_with_an_in_memory_start": mem_runs, "histories_with_damage_between_kills": dam_runs, "crash_points_in_source": allcps, "exhaustive": True,
                   "exhaustive_domain": "prior state x single crash point"},
     }
 
